@@ -11,7 +11,8 @@ import numpy as np
 from lerax.algorithm import DQN, SAC
 
 from . import tables as tb
-from .drive_onpolicy import Recorder, act_code
+from .drive_onpolicy import Recorder, act_code, logging_callback, proj_stats, SD
+from lerax.callback import CallbackList
 from .drive_env import rew_int
 
 
@@ -51,6 +52,9 @@ def _iteration(algo, state, key, cb):
     return algo.iteration(state, key=key, callback=cb)
 
 
+ZST0 = dict(step=0, ret=0, len=0, latch=False, avgR=0, avgL=0)
+
+
 def _rows(cfg, buf, frm: int, to: int, cap: int, asp, osp) -> list:
     out = []
     for n in range(frm, to):
@@ -59,7 +63,7 @@ def _rows(cfg, buf, frm: int, to: int, cap: int, asp, osp) -> list:
                         nobs=tb.obs_code(osp["kind"], buf.next_observations[i]),
                         act=act_code(asp["kind"], buf.actions[i]), rew=rew_int(buf.rewards[i]),
                         done=bool(buf.dones[i]), timeout=bool(buf.timeouts[i]), pstate=int(buf.states.n[i]),
-                        k=0, pos=0, s=0, cnt=[], ps=0))
+                        k=0, pos=0, s=0, cnt=[], ps=0, stats=ZST0))
     return out
 
 
@@ -71,9 +75,13 @@ def record_offpolicy(cache: tb.EnvCache, cfg: dict, algo_name: str, iters: int, 
     N = cfg["N"]
     policy = tb.TableACPolicy(env, cfg)
     algo = make_algo(algo_name, cfg["bufsize"], cfg["lstarts"], N, cfg["nsteps"])
-    cb = Recorder()
+    logcb, backend = logging_callback(cfg.get("an", 2))
+    cb = CallbackList([Recorder(), logcb])
     k0, k1 = jr.split(jr.key(seed))
+    del backend.records[:]
     state = _reset(algo, env, policy, k0, cb)
+    dones = [0] * N
+    ZST = dict(step=0, ret=0, len=0, latch=False, avgR=0, avgL=0)
     streams = [[] for _ in range(N)]
     last_pos = [0] * N
     caps = [0] * N
@@ -90,8 +98,15 @@ def record_offpolicy(cache: tb.EnvCache, cfg: dict, algo_name: str, iters: int, 
             streams[e] += _rows(cfg, s1.buffer, frm, pos, cap, asp, osp)
             last_pos[e] = pos
             st = tb.proj_env_state(s1.env_state, depth)
+            jax.effects_barrier()
+            recs = [r for r in backend.records if r[0] == "scalars"]
+            dones[e] = sum(1 for x in streams[e] if x["ev"] == "row" and x["done"])
             streams[e].append(dict(ev="snap", k=k, pos=pos, s=st["s"], cnt=st["cnt"], ps=int(s1.policy_state.n),
-                                   obs=0, nobs=0, act=0, rew=0, done=False, timeout=False, pstate=0))
+                                   obs=0, nobs=0, act=0, rew=0, done=False, timeout=False, pstate=0,
+                                   stats=proj_stats(s1.callback_state.states[1]), dones=dones[e],
+                                   record=({"n_records": len(recs), "step": recs[-1][2],
+                                            "retN": int(round(recs[-1][1]["episode/return"] * N * SD)),
+                                            "lenN": int(round(recs[-1][1]["episode/length"] * N * SD))} if recs else None)))
 
     snap(0, state)
     for it, k in enumerate(jr.split(k1, iters)):
